@@ -28,7 +28,10 @@
 EXTENDS RtrLayout
 CONSTANTS MaxDev,        \* deviations per conversation
           MaxSteps,      \* update() calls per conversation
-          CheckAll       \* TRUE: every PDU the client reads has its version checked
+          CheckAll,      \* TRUE: every PDU the client reads has its version checked
+          Splits,        \* octet counts k: a Serial Notify of which only the first k octets arrive before the refresh timer fires
+          CancelSafe     \* TRUE: the octets read before the timer fired still count; FALSE (the code: timeout_at drops the
+                         \* SerialNotify::read future and the octets it had taken with it): the rest is read as a header
 NoneV == 9
 InitialVersion == 2
 \* ot / body: the PDU this started as and the octets of its body really on the wire (deviations change header fields only)
@@ -68,6 +71,22 @@ DevSet(r, c, s, rt) ==
 NotifyDevs(c) == { [Notify(c) EXCEPT !.v = w] : w \in (0..3) \ {c} } \cup { [Notify(c) EXCEPT !.len = l] : l \in WrongLens(0, c) }
                  \cup { [Notify(c) EXCEPT !.t = t] : t \in {1, 2, 3, 4, 7, 8, 10, 5} }
 
+ \* ---- the same said of ANY reply (used for recorded conversations, where the cache's deviations are not drawn from DevSet):
+\* which PDU of a reply is the first the session must refuse, and whether the reply is whole
+VerOkFirst(c, v) == IF c # NoneV THEN v = c ELSE v <= InitialVersion
+OkFirst(p, c, rt) == \/ p.t = 3 /\ p.len = 8 /\ VerOkFirst(c, p.v)
+                     \/ p.t = 8 /\ rt = "serial" /\ p.len = 8 /\ VerOkFirst(c, p.v)
+                     \/ p.t = 10 /\ p.code = 4 /\ p.len = 16 /\ c = NoneV /\ p.v < InitialVersion
+OkNext(p, c1) == p.t \in {4, 6, 9, 11, 7} /\ Need(<<"payload", "">>, p.t, p.v, p.len) # ErrN /\ p.v = c1
+SettledBy(r, c) == IF c # NoneV THEN c ELSE r[1].v
+FirstWrong(r, c, rt) ==
+    IF r = <<>> THEN 0 ELSE IF ~OkFirst(r[1], c, rt) THEN 1
+    ELSE IF r[1].t # 3 THEN (IF Len(r) > 1 THEN 2 ELSE 0)
+    ELSE LET W == {i \in 2..Len(r) : ~OkNext(r[i], SettledBy(r, c)) \/ (\E k \in 2..(i - 1) : r[k].t = 7)} IN
+         IF W = {} THEN 0 ELSE CHOOSE i \in W : \A j \in W : i <= j
+Whole(r) == r # <<>> /\ (IF r[1].t = 3 THEN r[Len(r)].t = 7 ELSE Len(r) = 1)
+Clean(r, c, rt) == FirstWrong(r, c, rt) = 0 /\ Whole(r)
+
 VARIABLES sv,          \* the version the cache speaks
           cv,          \* the version the client has settled on (NoneV: not yet)
           hasState,    \* the client knows a session and serial (the next query is a serial query)
@@ -80,30 +99,36 @@ VARIABLES sv,          \* the version the cache speaks
           steps,       \* update() calls finished or under way
           devs, dirty, badAt,
           delivered,   \* payload items handed to the update of the current step
+          shifted,     \* the reader's idea of where PDUs start is off (octets of a half-read PDU were dropped)
           startState,  \* the client was created with a known session and serial (history)
           hist,        \* what the cache wrote, segment by segment (history)
           verdicts     \* outcome of each finished step: <<"ok", items>> / <<"err", 0>>  (history)
-vars == <<sv, cv, hasState, phase, route, resp, tail, ends, pos, steps, devs, dirty, badAt, delivered, startState, hist, verdicts>>
+vars == <<sv, cv, hasState, phase, route, resp, tail, ends, pos, steps, devs, dirty, badAt, delivered, shifted, startState, hist, verdicts>>
 
 Init == /\ sv \in 0..2 /\ cv = NoneV /\ hasState \in BOOLEAN /\ phase = "idle" /\ route = "reset" /\ resp = <<>>
         /\ tail = 0 /\ ends = FALSE /\ pos = 0 /\ steps = 0 /\ devs = 0 /\ dirty = FALSE /\ badAt = 0 /\ delivered = 0
-        /\ startState = hasState /\ hist = <<>> /\ verdicts = <<>>
+        /\ shifted = FALSE /\ startState = hasState /\ hist = <<>> /\ verdicts = <<>>
 Seg(kind, pdus, tl, e) == [kind |-> kind, pdus |-> pdus, tail |-> tl, ends |-> e]
 
 \* ---- between two exchanges: Client::update waits for the refresh timer or reads a Serial Notify
 StartFirst == /\ phase = "idle" /\ steps = 0 /\ steps' = 1 /\ phase' = "query" /\ delivered' = 0
-              /\ UNCHANGED <<startState, sv, cv, hasState, route, resp, tail, ends, pos, devs, dirty, badAt, hist, verdicts>>
+              /\ UNCHANGED <<shifted, startState, sv, cv, hasState, route, resp, tail, ends, pos, devs, dirty, badAt, hist, verdicts>>
 WaitOutcome(p) == IF p.t = 0 /\ p.len = 12 /\ (CheckAll => p.v = cv) THEN "query" ELSE "err"
 Wait == /\ phase = "idle" /\ steps >= 1 /\ steps < MaxSteps /\ ~ends
         /\ steps' = steps + 1 /\ delivered' = 0
         /\ \/ /\ phase' = "query"                                        \* the refresh timer fires, nothing arrived
-              /\ UNCHANGED <<dirty, devs, badAt, hist, verdicts>>
+              /\ UNCHANGED <<dirty, devs, badAt, hist, verdicts, shifted>>
            \/ \E p \in {Notify(cv)} \cup (IF devs < MaxDev THEN NotifyDevs(cv) ELSE {}) :
                 /\ dirty' = (dirty \/ p # Notify(cv)) /\ devs' = devs + (IF p # Notify(cv) THEN 1 ELSE 0)
                 /\ badAt' = (IF p # Notify(cv) THEN 1 ELSE 0)
                 /\ hist' = Append(hist, Seg("wait", <<p>>, 0, FALSE))
                 /\ phase' = WaitOutcome(p)
                 /\ verdicts' = (IF WaitOutcome(p) = "err" THEN Append(verdicts, <<"err", 0>>) ELSE verdicts)
+                /\ shifted' = shifted
+           \/ \E k \in Splits :                                        \* a Serial Notify in two pieces, the timer fires in between
+                /\ hist' = Append(hist, Seg("split", <<Notify(cv)>>, k, FALSE))
+                /\ phase' = "query" /\ shifted' = ~CancelSafe
+                /\ UNCHANGED <<dirty, devs, badAt, verdicts>>
         /\ pos' = 0
         /\ UNCHANGED <<startState, sv, cv, hasState, route, resp, tail, ends>>
 
@@ -127,7 +152,7 @@ Query == /\ phase = "query"
                     /\ devs' = devs + 1 /\ dirty' = TRUE
          /\ hist' = Append(hist, Seg("reply", resp', tail', ends'))
          /\ phase' = "first" /\ pos' = 0
-         /\ UNCHANGED <<startState, sv, cv, hasState, steps, delivered, verdicts>>
+         /\ UNCHANGED <<shifted, startState, sv, cv, hasState, steps, delivered, verdicts>>
 
 \* ---- the reader
 Fail == /\ phase' = "err" /\ verdicts' = Append(verdicts, <<"err", 0>>)
@@ -135,7 +160,7 @@ CheckVersion(v) == IF cv # NoneV THEN v = cv ELSE v <= InitialVersion
 Settle(v) == cv' = (IF cv = NoneV THEN v ELSE cv)
 ReadFirst ==
     /\ phase = "first"
-    /\ IF resp = <<>> THEN Fail /\ UNCHANGED <<cv, hasState, pos, delivered>>        \* end of stream
+    /\ IF resp = <<>> \/ shifted THEN Fail /\ UNCHANGED <<cv, hasState, pos, delivered>>   \* end of stream / not a header
        ELSE LET p == resp[1] IN
          /\ pos' = 1
          /\ CASE p.t = 3 /\ p.len = 8 /\ CheckVersion(p.v)
@@ -147,7 +172,7 @@ ReadFirst ==
               [] p.t = 10 /\ p.code = 4 /\ p.len = 16 /\ cv = NoneV /\ p.v < InitialVersion
                    -> /\ cv' = p.v /\ phase' = "query" /\ UNCHANGED <<hasState, delivered, verdicts>>
               [] OTHER -> Fail /\ UNCHANGED <<cv, hasState, delivered>>
-    /\ UNCHANGED <<startState, sv, route, resp, tail, ends, steps, devs, dirty, badAt, hist>>
+    /\ UNCHANGED <<shifted, startState, sv, route, resp, tail, ends, steps, devs, dirty, badAt, hist>>
 ReadNext ==
     /\ phase = "next"
     /\ IF pos >= Len(resp) THEN Fail /\ UNCHANGED <<cv, hasState, pos, delivered, steps>>   \* end of stream before End of Data
@@ -158,7 +183,7 @@ ReadNext ==
                  THEN /\ hasState' = TRUE /\ phase' = "idle" /\ verdicts' = Append(verdicts, <<"ok", delivered>>)
                       /\ UNCHANGED <<cv, delivered>>
                  ELSE /\ delivered' = delivered + 1 /\ UNCHANGED <<cv, hasState, phase, verdicts>>
-    /\ UNCHANGED <<startState, sv, route, resp, tail, ends, steps, devs, dirty, badAt, hist>>
+    /\ UNCHANGED <<shifted, startState, sv, route, resp, tail, ends, steps, devs, dirty, badAt, hist>>
 Next == StartFirst \/ Wait \/ Query \/ ReadFirst \/ ReadNext
 Spec == Init /\ [][Next]_vars /\ WF_vars(Next)
 
@@ -170,5 +195,10 @@ ErrMeansDirty == phase = "err" => dirty
 StopsAtBad    == (phase = "err" /\ badAt > 0 /\ pos > 0) => pos = badAt \/ (pos = badAt - 1 /\ badAt = Len(resp) + 1)
 VersionStable == [][cv # NoneV => cv' = cv]_vars
 SettledIsCache == cv # NoneV /\ ~dirty => cv = sv
+\* the two ways of saying "deviates" agree: the PDU a deviation was put into is the first the session must refuse
+DevIsWrong == (phase = "first" /\ pos = 0) =>
+                 IF ~dirty THEN Clean(resp, cv, route)
+                 ELSE IF ends THEN FirstWrong(resp, cv, route) = 0 /\ ~Whole(resp)
+                 ELSE FirstWrong(resp, cv, route) = badAt
 Terminates == <>Done
 =============================================================================
